@@ -383,16 +383,25 @@ func c11Run(sc c11Scenario, keys []eckg.LocalPartySaveData, mods *c11Moduli) (re
 			t.Sess = sess
 			t.I["N"] = N
 			t.fromMod(pf)
+			// elements the prover left nil (no twist of that challenge is a square modulo both primes): the N-th root exists
+			// and is filled in, the fourth root does not and is set to 1 - so that only the fourth-root equation fails
+			t.challenge()
+			phi := pcPhi(fs)
+			invN := new(big.Int).ModInverse(new(big.Int).Mod(N, phi), phi)
 			filled := 0
-			for _, k := range []string{"X", "Z"} {
-				for j, x := range t.V[k] {
-					if x == nil {
-						t.V[k][j] = pcB(1)
-						filled++
+			for j := range t.V["X"] {
+				if t.V["X"][j] == nil {
+					t.V["X"][j] = pcB(1)
+					filled++
+				}
+				if t.V["Z"][j] == nil {
+					t.V["Z"][j] = pcB(1)
+					if invN != nil {
+						t.V["Z"][j] = new(big.Int).Exp(t.EV[j], invN, N)
 					}
 				}
 			}
-			res.Notes = append(res.Notes, fmt.Sprintf("the library's prover left %d of 160 elements nil (no twist of that challenge is a square modulo both primes); they were set to 1", filled))
+			res.Notes = append(res.Notes, fmt.Sprintf("the library's prover left %d of 80 fourth roots nil; they were set to 1 (their N-th roots were filled in)", filled))
 			present(t)
 			return
 		}
